@@ -32,6 +32,27 @@ type Cfg struct {
 	StartSeq int      `json:"startSeq"` // outgoing counter / foreign messages already in the shared store
 	Buf      int      `json:"buf"`
 	Yield    int      `json:"yield"` // >0: the stores yield the processor up to this many times inside every call
+	// SaveFailFrom: the message store refuses every Save from this one on (0: never)
+	SaveFailFrom int `json:"saveFailFrom"`
+}
+
+// failFromStore: an application store that starts failing (a disk that filled up, a database that went away)
+type failFromStore struct {
+	session.MessageStorage
+	mu   sync.Mutex
+	n    int
+	from int
+}
+
+func (f *failFromStore) Save(id fix.StorageID, msg simplefixgo.SendingMessage, seq int) error {
+	f.mu.Lock()
+	f.n++
+	fail := f.n >= f.from
+	f.mu.Unlock()
+	if fail {
+		return errors.New("store: cannot save")
+	}
+	return f.MessageStorage.Save(id, msg, seq)
 }
 
 // yieldingStore delays inside the application's stores (scheduler yields only: a virtual-time sleep
@@ -186,6 +207,9 @@ func NewRig(cfg Cfg) (*Rig, error) {
 		ys := &yieldingStore{Storage: r.Store, n: cfg.Yield}
 		cs, ms = ys, ys
 	}
+	if cfg.SaveFailFrom > 0 {
+		ms = &failFromStore{MessageStorage: ms, from: cfg.SaveFailFrom}
+	}
 	var err error
 	if cfg.Role == "acceptor" {
 		r.H = simplefixgo.NewAcceptorHandler(ctx, fixgen.FieldMsgType, cfg.Buf)
@@ -310,6 +334,10 @@ func (r *Rig) Do(a *Action) (callErr bool) {
 		callErr = r.S.Logout() != nil
 	case "stop":
 		callErr = r.S.Stop() != nil
+	case "relogon":
+		_ = r.S.LogonRequest()
+	case "resetout": // the application starts a new run of outbound numbers (as it would on a ResetSeqNumFlag logon)
+		_ = r.Store.ResetSeqNum(fix.StorageID{Side: fix.Outgoing})
 	case "advance":
 		time.Sleep(time.Duration(a.Ms) * time.Millisecond)
 	default:
